@@ -134,6 +134,80 @@ webhooks:
       requestBody: {required: true, content: {application/json: {schema: {type: object, required: [id], properties: {id: {type: string}, n: {type: integer, maximum: 5}}}}}}
       responses: {"200": {description: ok}, "4XX": {description: e, content: {application/json: {schema: {type: string}}}}}
 `, fl("ops", "webhooks", "params", "json", "validators", "interfaces")},
+	{"convenient_security", `openapi: 3.0.3
+info: {title: t, version: "1"}
+security: [{key: []}]
+components:
+  securitySchemes: {key: {type: apiKey, in: header, name: X-Key}}
+  schemas:
+    Error: {type: object, required: [code, message], properties: {code: {type: integer}, message: {type: string}}}
+paths:
+  /a:
+    get:
+      operationId: getA
+      parameters: [{name: q, in: query, schema: {type: string}}]
+      responses:
+        "200": {description: ok, content: {application/json: {schema: {type: string}}}}
+        default: {description: e, content: {application/json: {schema: {$ref: "#/components/schemas/Error"}}}}
+  /b:
+    post:
+      operationId: postB
+      requestBody: {required: true, content: {application/json: {schema: {type: object, properties: {x: {type: integer}}}}}}
+      responses:
+        "204": {description: none}
+        default: {description: e, content: {application/json: {schema: {$ref: "#/components/schemas/Error"}}}}
+`, fl("ops", "params", "json", "securities")},
+	{"shared_responses", `openapi: 3.0.3
+info: {title: t, version: "1"}
+paths:
+  /pet:
+    delete:
+      operationId: deletePet
+      responses:
+        "204": {description: done}
+        "401": {$ref: "#/components/responses/Denied"}
+        "403": {$ref: "#/components/responses/Denied"}
+        "404": {$ref: "#/components/responses/Problem"}
+        "409": {$ref: "#/components/responses/Problem"}
+    get:
+      operationId: getPet
+      responses:
+        "200": {description: ok, content: {application/json: {schema: {type: string}}}}
+        "201": {description: ok, content: {application/json: {schema: {type: string}}}}
+        "401": {$ref: "#/components/responses/Denied"}
+components:
+  responses:
+    Denied: {description: denied}
+    Problem: {description: problem, content: {application/json: {schema: {type: object, properties: {title: {type: string}}}}}}
+`, fl("ops", "json", "interfaces")},
+	{"webhook_security", `openapi: 3.1.0
+info: {title: t, version: "1"}
+components:
+  securitySchemes: {be: {type: http, scheme: bearer}}
+paths:
+  /a: {get: {operationId: getA, responses: {"200": {description: ok}}}}
+webhooks:
+  ev:
+    post:
+      operationId: onEv
+      security: [{be: []}]
+      requestBody: {required: true, content: {application/json: {schema: {type: object, properties: {id: {type: string}}}}}}
+      responses: {"200": {description: ok}}
+`, fl("ops", "webhooks", "json", "securities")},
+	{"pattern_responses_same_schema", `openapi: 3.0.3
+info: {title: t, version: "1"}
+paths:
+  /a:
+    get:
+      operationId: getA
+      responses:
+        "200": {description: ok}
+        4XX: {description: e, content: {application/json: {schema: {$ref: "#/components/schemas/Error"}}}}
+        5XX: {description: e, content: {application/json: {schema: {$ref: "#/components/schemas/Error"}}}}
+components:
+  schemas:
+    Error: {type: object, required: [message], properties: {message: {type: string}}}
+`, fl("ops", "json", "interfaces")},
 	{"webhooks_only", `openapi: 3.1.0
 info: {title: t, version: "1"}
 webhooks:
@@ -527,14 +601,16 @@ func Check(r *core.Run) error {
 			files = []string{}
 		}
 		shapeFlags := fl()
+		shapeName := ""
 		if c.shape != nil {
 			shapeFlags = c.shape.flags
+			shapeName = c.shape.name
 		}
 		nm := c.names
 		if nm == nil {
 			nm = []string{}
 		}
-		b, _ := json.Marshal(map[string]any{"k": "gen", "set": set, "shape": shapeFlags, "flagsKnown": c.shape != nil, "gen": c.gen, "build": c.build, "files": files, "names": nm, "scope": c.scope})
+		b, _ := json.Marshal(map[string]any{"k": "gen", "set": set, "shape": shapeFlags, "flagsKnown": c.shape != nil, "gen": c.gen, "build": c.build, "files": files, "names": nm, "scope": c.scope, "shapeName": shapeName})
 		lines = append(lines, b)
 		desc = append(desc, fmt.Sprintf("%s -> generation %s %s, build %s %s", c.what, c.gen, c.err, c.build, c.berr))
 		cls := "names"
